@@ -9,6 +9,7 @@
 EXTENDS Matchers, TLC, Json, FnRand, SequencesExt
 
 CONSTANTS MaxNest, Bug, Emit,
+          EmitMod,      \* replay every depth-2 expression (1) or the third of them selected by VERIF_SEED (3)
           Samples       \* 0: exhaustive; K > 0: K pseudo-random chains (FnRand, seeded by VERIF_SEED)
 
 VARIABLES m, depth, id
@@ -68,5 +69,7 @@ InvVisit == LET ms == MatchSet(m) IN \A d \in Dirs : VisitSetOKs(ms, d, TheVisit
 (* directory with nothing below it in an unbounded universe is not         *)
 (* claimed; only soundness is.                                             *)
 
-EmitInv == (Emit /\ depth >= 1) => PrintT(<<"CASE", ToJson(m)>>)
+Selected == \/ EmitMod = 1 \/ depth # 2 \/ Samples > 0
+            \/ \E i \in 1..Len(Pool1Seq) : Pool1Seq[i] = m.b /\ i % EmitMod = Seed % EmitMod
+EmitInv == (Emit /\ depth >= 1 /\ Selected) => PrintT(<<"CASE", ToJson(m)>>)
 =============================================================================
